@@ -185,7 +185,10 @@ pub fn eval(expr: Node) -> Result<Number, Box<dyn error::Error>> {
             let b = eval(*expr2)?;
             match a {
                 Number::Integer(value_a) => match b {
-                    Number::Integer(value_b) => Ok(Number::Integer(value_a % value_b)),
+                    Number::Integer(value_b) => match value_a.checked_rem(value_b) {
+                        Some(r) => Ok(Number::Integer(r)),
+                        None => Ok(Number::Float((value_a as f64) % (value_b as f64))),
+                    },
                     Number::Float(value_b) => Ok(Number::Float((value_a as f64) % value_b)),
                 },
                 Number::Float(value_a) => match b {
